@@ -17,8 +17,11 @@ vars == <<i, j>>
 
 S(s) == Str(s)
 M(ps) == MapV(ps)
+TwoTo63 == <<57, 50, 50, 51, 51, 55, 50, 48, 51, 54, 56, 53, 52, 55, 55, 53, 56, 48, 56>>
 UCore == <<
   BigV(FALSE, <<49, 56, 52, 52, 54, 55, 52, 52, 48, 55, 51, 55, 48, 57, 53, 53, 49, 54, 49, 53>>),
+  \* 2^63: the first whole number beyond int64 - held as an unsigned integer, or (it is a power of two) exactly as a float
+  BigV(FALSE, TwoTo63),
   Nil, Bool(TRUE), Bool(FALSE),
   IntV(0 - 1), IntV(0), IntV(1), IntV(2), IntV(97),
   Flt(0 - 1, 2), Flt(0, 1), Flt(1, 1), Flt(3, 2), Flt(5, 2),
@@ -89,7 +92,7 @@ RepChoices(v) ==
     [] v.k = "str" -> <<"drop", "ptr", "dropdrop">>
     [] v.k = "bool" -> <<"drop", "ptr">>
     [] v.k = "nil" -> <<"drop", "nilptr">>
-    [] v.k = "big" -> <<"drop">>
+    [] v.k = "big" -> IF v.digits = TwoTo63 THEN <<"float64", "drop", "float32", "float64">> ELSE <<"drop">>
     [] v.k = "map" -> <<"drop", "anystrkeys", "ptr">> \o (IF \A n \in 1..Len(v.v) : v.v[n][2].k = "int" THEN <<"mapint">> ELSE <<>>)
     [] v.k = "arr" -> IF Len(v.v) = 0 THEN <<"drop", "nilslice", "ptr">>
                       ELSE <<"elem0", "drop", "elemlast", "ptr">> \o (IF AllInts(v) THEN <<"ints", "int64s">> ELSE <<>>)
